@@ -394,3 +394,4 @@ Definition multistream_trace (order : list bname) (chunks : list (list (bname * 
   synched_head order (grouped bname zlist_eqb chunks).
 Definition multistream_table_trace (order : list bname) (chunks : list (list (bname * Z))) : trace ids :=
   multistream_trace order (table_chunks chunks).
+Definition m_ms_table_is_one_chunk_stream : bool := true.   (* table_chunks above is how MultiStream.__init__ feeds a table *)
